@@ -109,6 +109,7 @@ int         bus_connection_get_n_services_owned   (DBusConnection *connection);
 dbus_bool_t bus_connection_complete (DBusConnection               *connection,
 				     const DBusString             *name,
                                      DBusError                    *error);
+void bus_connection_uncomplete (DBusConnection               *connection);
 
 /* called by dispatch.c when the connection is dropped */
 void        bus_connection_disconnected (DBusConnection *connection);
